@@ -1,6 +1,9 @@
-//! C18: Value::pointer / pointer_mut / parse_index against the RFC 6901 evaluator.
+//! C18: Value::pointer / pointer_mut / parse_index against the RFC 6901 evaluator;
+//! get / Index / IndexMut / take against direct container access; `Value == primitive`;
+//! `json!` (a generated program, compiled at check time) against parsing the equivalent text.
 use crate::common::*;
-use serde_json::Value;
+use serde_json::{Map, Value};
+use std::panic::{catch_unwind, AssertUnwindSafe};
 
 fn obs_ptr(v: &Value, p: &str) -> String {
     match v.pointer(p) { None => "N".into(), Some(x) => format!("S{}", enc(x)) }
@@ -25,6 +28,12 @@ fn emit(sink: &mut Sink, v: &Value, p: &str, tag: &str) {
 }
 
 pub fn replay(sink: &mut Sink, toks: &[&str]) {
+    match toks[0] {
+        "vget" | "vindex" | "vindexmut" | "vtake" => return replay_index(sink, toks),
+        "peq" => return replay_peq(sink, toks),
+        "jsonm" | "jsonp" | "jsonmbuild" => return replay_jsonm(sink, toks),
+        _ => {}
+    }
     if toks.len() < 3 { return; }
     let v = crate::common::dec_value(toks[1]);
     let p = String::from_utf8(unhex(toks[2])).unwrap();
@@ -104,6 +113,688 @@ pub fn run(sink: &mut Sink, thorough: bool, seed: u64) {
             let n = r.below(7);
             let q: String = (0..n).map(|_| *r.pick(&['/', '~', '0', '1', 'a', '-', '+', 'b'])).collect();
             emit(sink, &v, &q, "random");
+        }
+    }
+    run_index(sink, thorough, &mut r);
+    #[cfg(not(feature = "ap"))]
+    run_peq(sink, thorough, &mut r);
+    run_jsonm(sink, thorough, seed, &mut r);
+}
+
+// ------------------------------------------------------------------------------------------------
+// get / get_mut / Index / IndexMut / take
+// ------------------------------------------------------------------------------------------------
+
+/// an index expression: `usize`, `&str`, `String` and references to them (the four `Index` impls)
+#[derive(Clone, Debug)]
+enum Probe { U(usize), S(String), St(String), R(Box<Probe>) }
+
+fn enc_probe(p: &Probe) -> String {
+    match p {
+        Probe::U(n) => format!("u{}", n),
+        Probe::S(s) => format!("rs{}", hexf(s.as_bytes())),      // `&str` is `&T` with `T = str`
+        Probe::St(s) => format!("S{}", hexf(s.as_bytes())),
+        Probe::R(q) => format!("r{}", enc_probe(q)),
+    }
+}
+fn dec_probe(t: &str) -> Option<Probe> {
+    let txt = |h: &str| String::from_utf8(unhex(h)).ok();
+    if let Some(r) = t.strip_prefix("rs") { return txt(r).map(Probe::S); }
+    if let Some(r) = t.strip_prefix('r') { return dec_probe(r).map(|q| Probe::R(Box::new(q))); }
+    if let Some(r) = t.strip_prefix('u') { return r.parse().ok().map(Probe::U); }
+    if let Some(r) = t.strip_prefix('S') { return txt(r).map(Probe::St); }
+    None
+}
+
+/// run `$body` with `$i` bound to the probe as a value of its concrete Rust type
+macro_rules! with_probe {
+    ($p:expr, $i:ident => $body:expr) => {
+        match $p {
+            Probe::U(n) => { let $i: usize = *n; $body }
+            Probe::S(s) => { let $i: &str = s.as_str(); $body }
+            Probe::St(s) => { let $i: String = s.clone(); $body }
+            Probe::R(q) => match &**q {
+                Probe::U(n) => { let $i: &usize = n; $body }
+                Probe::S(s) => { let t: &str = s.as_str(); let $i: &&str = &t; $body }
+                Probe::St(s) => { let $i: &String = s; $body }
+                Probe::R(q2) => match &**q2 {
+                    Probe::U(n) => { let t: &usize = n; let $i: &&usize = &t; $body }
+                    Probe::S(s) => { let t: &str = s.as_str(); let u: &&str = &t; let $i: &&&str = &u; $body }
+                    Probe::St(s) => { let t: &String = s; let $i: &&String = &t; $body }
+                    Probe::R(_) => panic!("probe nesting too deep"),
+                },
+            },
+        }
+    };
+}
+
+fn opt(o: Option<&Value>) -> String { match o { None => "N".into(), Some(x) => format!("S{}", enc(x)) } }
+fn sentinel() -> Value { Value::String("#".into()) }
+
+fn obs_vget(p: &Probe, v: &Value) -> String {
+    let a = with_probe!(p, i => opt(v.get(i)));
+    let mut w = v.clone();
+    let hit = with_probe!(p, i => match w.get_mut(i) { None => false, Some(r) => { *r = sentinel(); true } });
+    format!("{}|{}", a, if hit { format!("S{}", enc(&w)) } else { "N".into() })
+}
+fn obs_vindex(p: &Probe, v: &Value) -> String {
+    match catch_unwind(AssertUnwindSafe(|| with_probe!(p, i => enc(&v[i])))) { Ok(s) => s, Err(_) => "PANIC".into() }
+}
+fn obs_vindexmut(p: &Probe, v: &Value) -> String {
+    let mut w = v.clone();
+    let r = catch_unwind(AssertUnwindSafe(|| with_probe!(p, i => { let r = &mut w[i]; let old = enc(r); *r = sentinel(); old })));
+    match r { Ok(old) => format!("{}|{}", old, enc(&w)), Err(_) => "PANIC".into() }
+}
+fn obs_vtake(v: &Value, ptr: &str) -> String {
+    let mut w = v.clone();
+    match w.pointer_mut(ptr).map(Value::take) { None => "N".into(), Some(t) => format!("{}|{}", enc(&t), enc(&w)) }
+}
+
+fn kind(v: &Value) -> &'static str {
+    match v { Value::Null => "null", Value::Bool(_) => "bool", Value::Number(_) => "num", Value::String(_) => "str", Value::Array(_) => "arr", Value::Object(_) => "obj" }
+}
+
+fn emit_index(sink: &mut Sink, p: &Probe, v: &Value) {
+    let pe = enc_probe(p); let ve = enc(v);
+    let cfg = crate::obs::cfg_tag();
+    let pk = match p { Probe::U(_) => "usize", Probe::S(_) => "&str", Probe::St(_) => "String", Probe::R(_) => "&T" };
+    let nt = matches!(v, Value::Array(_) | Value::Object(_) | Value::Null);
+    let o = obs_vget(p, v);
+    sink.case("vget", &[&pe, &ve], &o, &format!("vget:{}:{}:{}", pk, kind(v), if o.starts_with('N') { "miss" } else { "hit" }), nt);
+    let o = obs_vindex(p, v);
+    sink.case("vindex", &[&pe, &ve], &o, &format!("vindex:{}:{}", pk, kind(v)), nt);
+    let o = obs_vindexmut(p, v);
+    sink.case("vindexmut", &[&cfg, &pe, &ve], &o, &format!("vindexmut:{}:{}:{}", pk, kind(v), if o == "PANIC" { "panic" } else { "ok" }), nt);
+}
+
+fn replay_index(sink: &mut Sink, toks: &[&str]) {
+    match (toks[0], toks.len()) {
+        ("vget", 3) | ("vindex", 3) => {
+            let (Some(p), v) = (dec_probe(toks[1]), dec_value(toks[2])) else { return };
+            let o = if toks[0] == "vget" { obs_vget(&p, &v) } else { obs_vindex(&p, &v) };
+            sink.case(toks[0], &[toks[1], toks[2]], &o, "replay", true);
+        }
+        ("vindexmut", 4) => {
+            let (Some(p), v) = (dec_probe(toks[2]), dec_value(toks[3])) else { return };
+            let o = obs_vindexmut(&p, &v);
+            sink.case("vindexmut", &[&crate::obs::cfg_tag(), toks[2], toks[3]], &o, "replay", true);
+        }
+        ("vtake", 3) => {
+            let v = dec_value(toks[1]); let p = String::from_utf8(unhex(toks[2])).unwrap();
+            let o = obs_vtake(&v, &p);
+            sink.case("vtake", &[toks[1], toks[2]], &o, "replay", true);
+        }
+        _ => {}
+    }
+}
+
+fn probes_for(v: &Value, r: &mut Rng) -> Vec<Probe> {
+    let mut ps = vec![];
+    let mut keys: Vec<String> = vec![r.pick(KEYS).to_string(), gen_string(r)];
+    let mut idxs: Vec<usize> = vec![0, r.below(4)];
+    match v {
+        Value::Object(m) => { for k in m.keys() { keys.push(k.clone()); } idxs.push(m.len()); }
+        Value::Array(xs) => { idxs.push(xs.len()); if !xs.is_empty() { idxs.push(xs.len() - 1); } idxs.push(usize::MAX); keys.push("0".into()); }
+        _ => {}
+    }
+    for k in keys {
+        match r.below(5) {
+            0 => ps.push(Probe::St(k)),
+            1 => ps.push(Probe::R(Box::new(Probe::St(k)))),
+            2 => ps.push(Probe::R(Box::new(Probe::S(k)))),
+            3 => ps.push(Probe::R(Box::new(Probe::R(Box::new(Probe::St(k)))))),
+            _ => ps.push(Probe::S(k)),
+        }
+    }
+    for i in idxs {
+        match r.below(4) { 0 => ps.push(Probe::R(Box::new(Probe::U(i)))), 1 => ps.push(Probe::R(Box::new(Probe::R(Box::new(Probe::U(i)))))), _ => ps.push(Probe::U(i)) }
+    }
+    ps
+}
+
+fn run_index(sink: &mut Sink, thorough: bool, r: &mut Rng) {
+    // fixed corpus: every value kind × every probe form
+    let fixed: Vec<Value> = vec![
+        Value::Null, Value::Bool(true), Value::from(7u64), Value::from(-7i64), Value::from(1.5f64), Value::from("s"), Value::from(""),
+        Value::Array(vec![]), Value::Array(vec![Value::Null]), Value::Array((0..3).map(Value::from).collect()),
+        Value::Object(Map::new()),
+        serde_json::from_str(r#"{"b":1,"a":null,"c":[1],"":{"x":2},"0":"zero","~":false}"#).unwrap(),
+    ];
+    let fixed_probes: Vec<Probe> = vec![
+        Probe::U(0), Probe::U(1), Probe::U(2), Probe::U(3), Probe::U(usize::MAX), Probe::R(Box::new(Probe::U(0))), Probe::R(Box::new(Probe::R(Box::new(Probe::U(1))))),
+        Probe::S("a".into()), Probe::S("aa".into()), Probe::S("".into()), Probe::S("0".into()), Probe::S("bb".into()), Probe::S("z".into()), Probe::S("A".into()),
+        Probe::St("b".into()), Probe::St("d".into()), Probe::R(Box::new(Probe::St("c".into()))), Probe::R(Box::new(Probe::S("~".into()))),
+        Probe::R(Box::new(Probe::R(Box::new(Probe::S("a".into()))))), Probe::R(Box::new(Probe::R(Box::new(Probe::St("nope".into()))))),
+    ];
+    for v in &fixed { for p in &fixed_probes { emit_index(sink, p, v); } }
+    for v in &fixed {
+        for p in ["", "/a", "/c/0", "//x", "/0", "/zz", "/c/5", "a"] {
+            let o = obs_vtake(v, p);
+            sink.case("vtake", &[&enc(v), &hexf(p.as_bytes())], &o, &format!("vtake:{}", if o == "N" { "none" } else { "some" }), true);
+        }
+    }
+    let docs = if thorough { 30000 } else { 2500 };
+    for _ in 0..docs {
+        let v = gen_value(r, 2);
+        for p in probes_for(&v, r) { emit_index(sink, &p, &v); }
+        let mut paths = vec![];
+        all_paths(&v, String::new(), &mut paths, r);
+        let p = r.pick(&paths).clone();
+        let p = if r.chance(1, 5) { mutate(&p, r) } else { p };
+        let o = obs_vtake(&v, &p);
+        sink.case("vtake", &[&enc(&v), &hexf(p.as_bytes())], &o, &format!("vtake:{}", if o == "N" { "none" } else { "some" }), !p.is_empty());
+    }
+}
+
+// ------------------------------------------------------------------------------------------------
+// PartialEq with primitives
+// ------------------------------------------------------------------------------------------------
+
+const INT_TYS: &[&str] = &["i8", "i16", "i32", "i64", "isize", "u8", "u16", "u32", "u64", "usize"];
+
+fn tf(b: bool) -> char { if b { 't' } else { 'f' } }
+
+/// the four impls the macro generates for a numeric type / bool
+macro_rules! four_forms {
+    ($v:expr, $x:expr) => {{
+        let v: &Value = $v; let x = $x;
+        let mut w = v.clone();
+        let a = *v == x; let b = x == *v; let c = v == x; let d = { let m: &mut Value = &mut w; m == x };
+        [a, b, c, d].iter().map(|b| tf(*b)).collect::<String>()
+    }};
+}
+
+fn obs_peq(ty: &str, c: &str, v: &Value) -> Option<String> {
+    macro_rules! int { ($t:ty) => {{ let x: i128 = c.parse().ok()?; if x < <$t>::MIN as i128 || x > <$t>::MAX as i128 { return None; } four_forms!(v, x as $t) }}; }
+    Some(match ty {
+        "i8" => int!(i8), "i16" => int!(i16), "i32" => int!(i32), "i64" => int!(i64), "isize" => int!(isize),
+        "u8" => int!(u8), "u16" => int!(u16), "u32" => int!(u32), "u64" => int!(u64), "usize" => int!(usize),
+        "f32" => four_forms!(v, f32::from_bits(u32::from_str_radix(c, 16).ok()?)),
+        "f64" => four_forms!(v, f64::from_bits(u64::from_str_radix(c, 16).ok()?)),
+        "bool" => four_forms!(v, c == "t"),
+        "str" => {
+            let s = String::from_utf8(unhex(c)).ok()?;
+            let r: &str = s.as_str();
+            [*v == *r, *v == r, *r == *v, r == *v, *v == s, s == *v].iter().map(|b| tf(*b)).collect()
+        }
+        _ => return None,
+    })
+}
+
+fn emit_peq(sink: &mut Sink, ty: &str, c: &str, v: &Value, tag: &str) {
+    if let Some(o) = obs_peq(ty, c, v) {
+        let t = format!("peq:{}:{}:{}:{}", ty, kind(v), tag, if o.contains('t') { "eq" } else { "ne" });
+        sink.case("peq", &[ty, c, &enc(v)], &o, &t, matches!(v, Value::Number(_) | Value::String(_) | Value::Bool(_)));
+    }
+}
+
+fn replay_peq(sink: &mut Sink, toks: &[&str]) {
+    if toks.len() != 4 { return; }
+    let v = dec_value(toks[3]);
+    if let Some(o) = obs_peq(toks[1], toks[2], &v) { sink.case("peq", &[toks[1], toks[2], toks[3]], &o, "replay", true); }
+}
+
+fn peq_values() -> Vec<Value> {
+    let mut vs: Vec<Value> = vec![Value::Null, Value::Bool(true), Value::Bool(false), Value::from(""), Value::from("1"), Value::from("a"), Value::from("true"),
+        Value::from("-1"), Value::Array(vec![Value::from(1)]), Value::Object(Map::new())];
+    for n in [0u64, 1, 2, 127, 128, 255, 256, 32767, 32768, 65535, 65536, (1 << 31) - 1, 1 << 31, (1u64 << 32) - 1, 1 << 32,
+              16777216, 16777217, (1 << 53) - 1, 1 << 53, (1 << 53) + 1, (1 << 53) + 2, i64::MAX as u64 - 1, i64::MAX as u64, 1 << 63, (1 << 63) + 1, u64::MAX - 1, u64::MAX] {
+        vs.push(Value::from(n));
+    }
+    for n in [-1i64, -2, -127, -128, -129, -255, -256, -32768, -32769, -65536, -(1 << 31), -(1 << 31) - 1, -(1 << 32), -16777217, -(1 << 53), -(1 << 53) - 1, i64::MIN + 1, i64::MIN] {
+        vs.push(Value::from(n));
+    }
+    for f in [0.0f64, -0.0, 1.0, -1.0, 1.5, 0.5, 127.0, 128.0, 255.0, 256.0, 9007199254740992.0, 9007199254740994.0, 9223372036854775808.0, 18446744073709551616.0,
+              -9223372036854775808.0, 1e300, -1e300, f32::MAX as f64, 3.5e38, 0.1, 0.1f32 as f64, 16777217.0, 5e-324, f64::MAX, f64::MIN_POSITIVE, 1e-46, f32::MIN_POSITIVE as f64] {
+        vs.push(Value::from(f));
+    }
+    vs
+}
+
+fn int_comparands(ty: &str) -> Vec<i128> {
+    let (lo, hi): (i128, i128) = match ty {
+        "i8" => (i8::MIN as i128, i8::MAX as i128), "i16" => (i16::MIN as i128, i16::MAX as i128), "i32" => (i32::MIN as i128, i32::MAX as i128),
+        "i64" | "isize" => (i64::MIN as i128, i64::MAX as i128),
+        "u8" => (0, u8::MAX as i128), "u16" => (0, u16::MAX as i128), "u32" => (0, u32::MAX as i128), _ => (0, u64::MAX as i128),
+    };
+    let mut xs: Vec<i128> = vec![lo, lo + 1, -2, -1, 0, 1, 2, hi - 1, hi];
+    for b in [7u32, 8, 15, 16, 24, 31, 32, 53, 63, 64] { for d in [-1i128, 0, 1] { xs.push((1i128 << b) + d); xs.push(-(1i128 << b) + d); } }
+    xs.retain(|x| *x >= lo && *x <= hi);
+    xs.sort(); xs.dedup();
+    xs
+}
+
+fn run_peq(sink: &mut Sink, thorough: bool, r: &mut Rng) {
+    let vs = peq_values();
+    for ty in INT_TYS {
+        for x in int_comparands(ty) { let c = x.to_string(); for v in &vs { emit_peq(sink, ty, &c, v, "boundary"); } }
+    }
+    let f64s = [0.0f64, -0.0, f64::NAN, -f64::NAN, f64::INFINITY, f64::NEG_INFINITY, 1.0, -1.0, 1.5, 127.0, 255.0, 9007199254740992.0, 9007199254740994.0,
+                9223372036854775808.0, -9223372036854775808.0, 18446744073709551616.0, 18446744073709549568.0, 1e300, -1e300, 0.1, 0.1f32 as f64, f32::MAX as f64, 16777216.0, 5e-324, f64::MAX];
+    for x in f64s { let c = format!("{:016x}", x.to_bits()); for v in &vs { emit_peq(sink, "f64", &c, v, "boundary"); } }
+    let f32s = [0.0f32, -0.0, f32::NAN, f32::INFINITY, f32::NEG_INFINITY, 1.0, -1.0, 1.5, 127.0, 255.0, 16777216.0, 16777218.0, 9007199254740992.0, 9223372036854775808.0,
+                -9223372036854775808.0, 18446744073709551616.0, 0.1, f32::MAX, f32::MIN_POSITIVE, 1e-45, 0.5];
+    for x in f32s { let c = format!("{:08x}", x.to_bits()); for v in &vs { emit_peq(sink, "f32", &c, v, "boundary"); } }
+    for b in ["t", "f"] { for v in &vs { emit_peq(sink, "bool", b, v, "boundary"); } }
+    for s in ["", "1", "a", "true", "-1", "é", "null"] { let c = hexf(s.as_bytes()); for v in &vs { emit_peq(sink, "str", &c, v, "boundary"); } }
+    // random: a value and a comparand that is equal to it, next to it, or unrelated
+    let n = if thorough { 200000 } else { 20000 };
+    for _ in 0..n {
+        let v = if r.chance(3, 4) { Value::Number(gen_number(r)) } else { gen_value(r, 1) };
+        let ty = *r.pick(&["i8", "i16", "i32", "i64", "isize", "u8", "u16", "u32", "u64", "usize", "f32", "f64", "bool", "str"]);
+        let c: String = match ty {
+            "f64" => { let x = match r.below(3) { 0 => v.as_f64().unwrap_or(1.0), 1 => f64::from_bits(v.as_f64().unwrap_or(1.0).to_bits().wrapping_add(1)), _ => f64::from_bits(r.next()) }; format!("{:016x}", x.to_bits()) }
+            "f32" => { let x = match r.below(3) { 0 => v.as_f64().unwrap_or(1.0) as f32, 1 => f32::from_bits((v.as_f64().unwrap_or(1.0) as f32).to_bits().wrapping_add(1)), _ => f32::from_bits(r.next() as u32) }; format!("{:08x}", x.to_bits()) }
+            "bool" => (if r.chance(1, 2) { "t" } else { "f" }).to_string(),
+            "str" => hexf(match (&v, r.below(2)) { (Value::String(s), 0) => s.clone(), _ => gen_string(r) }.as_bytes()),
+            _ => {
+                let exact: i128 = v.as_i64().map(|x| x as i128).or(v.as_u64().map(|x| x as i128)).unwrap_or(0);
+                let x = match r.below(4) { 0 => exact, 1 => exact + 1, 2 => exact - (1i128 << 64), _ => (r.next() >> r.below(64)) as i128 };
+                let xs = int_comparands(ty); let (lo, hi) = (xs[0], xs[xs.len() - 1]);
+                // keep the comparand inside the type: out-of-range picks fall back to the wrapped value (what a careless cast would give)
+                let x = if x < lo || x > hi { let m = hi - lo + 1; lo + (x - lo).rem_euclid(m) } else { x };
+                x.to_string()
+            }
+        };
+        emit_peq(sink, ty, &c, &v, "random");
+    }
+}
+
+// ------------------------------------------------------------------------------------------------
+// json!: a generated Rust program, compiled against the tree under check
+// ------------------------------------------------------------------------------------------------
+
+/// token tree of a `json!` argument (mirrors `SJ.Spec.JsonMacro.TT`); leaves carry their Rust spelling
+#[derive(Clone, Debug)]
+enum TT { Null, True, False, Comma, Colon, Lit(Value, String), Expr(Value, String), Paren(Value, String), Arr(Vec<TT>), Obj(Vec<TT>) }
+
+fn enc_tt(t: &TT, out: &mut String) {
+    match t {
+        TT::Null => out.push('N'), TT::True => out.push('T'), TT::False => out.push('F'), TT::Comma => out.push('c'), TT::Colon => out.push('k'),
+        TT::Lit(v, _) => { out.push('L'); enc_value(v, out); }
+        TT::Expr(v, _) => { out.push('E'); enc_value(v, out); }
+        TT::Paren(v, _) => { out.push('P'); enc_value(v, out); }
+        TT::Arr(ts) => { out.push_str(&format!("A{};", ts.len())); for t in ts { enc_tt(t, out); } }
+        TT::Obj(ts) => { out.push_str(&format!("O{};", ts.len())); for t in ts { enc_tt(t, out); } }
+    }
+}
+
+/// Rust constructor code for a Value (used for interpolated `Value`s and for replays)
+fn value_code(v: &Value) -> String {
+    match v {
+        Value::Null => "Value::Null".into(),
+        Value::Bool(b) => format!("Value::Bool({})", b),
+        Value::Number(n) => {
+            if let Some(u) = n.as_u64() { format!("Value::from({}u64)", u) }
+            else if let Some(i) = n.as_i64() { format!("Value::from({}i64)", i) }
+            else { format!("Value::from(f64::from_bits(0x{:016x}u64))", n.as_f64().unwrap().to_bits()) }
+        }
+        Value::String(s) => format!("Value::from({:?})", s),
+        Value::Array(xs) => format!("Value::Array(vec![{}])", xs.iter().map(value_code).collect::<Vec<_>>().join(", ")),
+        Value::Object(m) => format!("{{ let mut m = Map::new(); {} Value::Object(m) }}",
+            m.iter().map(|(k, x)| format!("m.insert({:?}.to_string(), {});", k, value_code(x))).collect::<String>()),
+    }
+}
+
+fn dec_tt(b: &[u8], i: &mut usize) -> Option<TT> {
+    fn val(b: &[u8], i: &mut usize) -> Option<Value> {
+        // find the extent of one wire value by decoding it with a probe copy
+        fn skip(b: &[u8], i: &mut usize) -> Option<()> {
+            let c = *b.get(*i)?; *i += 1;
+            let semi = |i: &mut usize| -> Option<usize> { let st = *i; while *b.get(*i)? != b';' { *i += 1; } *i += 1; std::str::from_utf8(&b[st..*i - 1]).ok()?.parse().ok() };
+            match c {
+                b'n' | b't' | b'f' => Some(()),
+                b'i' | b'j' | b'l' | b's' => { while *b.get(*i)? != b';' { *i += 1; } *i += 1; Some(()) }
+                b'd' => { *i += 16; Some(()) }
+                b'a' => { let n = semi(i)?; for _ in 0..n { skip(b, i)?; } Some(()) }
+                b'o' => { let n = semi(i)?; for _ in 0..n { skip(b, i)?; skip(b, i)?; } Some(()) }
+                _ => None,
+            }
+        }
+        let st = *i; skip(b, i)?;
+        Some(dec_value(std::str::from_utf8(&b[st..*i]).ok()?))
+    }
+    let c = *b.get(*i)?; *i += 1;
+    let group = |i: &mut usize| -> Option<Vec<TT>> {
+        let st = *i; while *b.get(*i)? != b';' { *i += 1; } *i += 1;
+        let n: usize = std::str::from_utf8(&b[st..*i - 1]).ok()?.parse().ok()?;
+        (0..n).map(|_| dec_tt(b, i)).collect()
+    };
+    Some(match c {
+        b'N' => TT::Null, b'T' => TT::True, b'F' => TT::False, b'c' => TT::Comma, b'k' => TT::Colon,
+        b'L' => { let v = val(b, i)?; let s = default_spelling(&v); TT::Lit(v, s) }
+        b'E' => { let v = val(b, i)?; let s = default_spelling(&v); TT::Expr(v, s) }
+        b'P' => { let v = val(b, i)?; let s = format!("({})", default_spelling(&v)); TT::Paren(v, s) }
+        b'A' => TT::Arr(group(i)?), b'O' => TT::Obj(group(i)?),
+        _ => return None,
+    })
+}
+
+/// a Rust expression evaluating (through `to_value`) to `v`; a string is spelled as a `&str` literal so that it can be a key
+fn default_spelling(v: &Value) -> String { match v { Value::String(s) => format!("{:?}", s), _ => value_code(v) } }
+
+fn tt_source(t: &TT, out: &mut String) {
+    match t {
+        TT::Null => out.push_str("null"), TT::True => out.push_str("true"), TT::False => out.push_str("false"),
+        TT::Comma => out.push_str(", "), TT::Colon => out.push_str(": "),
+        TT::Lit(_, s) | TT::Expr(_, s) | TT::Paren(_, s) => out.push_str(s),
+        TT::Arr(ts) => { out.push('['); for t in ts { tt_source(t, out); } out.push(']'); }
+        TT::Obj(ts) => { out.push('{'); for t in ts { tt_source(t, out); } out.push('}'); }
+    }
+}
+
+/// the equivalent JSON text: leaves printed by the serialiser, commas and colons as written, trailing commas dropped
+fn tt_json(t: &TT, out: &mut String) -> bool {
+    match t {
+        TT::Null => out.push_str("null"), TT::True => out.push_str("true"), TT::False => out.push_str("false"),
+        TT::Comma | TT::Colon => return false,
+        TT::Lit(v, _) | TT::Expr(v, _) | TT::Paren(v, _) => out.push_str(&serde_json::to_string(v).unwrap()),
+        TT::Arr(ts) | TT::Obj(ts) => {
+            let is_arr = matches!(t, TT::Arr(_));
+            out.push(if is_arr { '[' } else { '{' });
+            let n = if matches!(ts.last(), Some(TT::Comma)) { ts.len() - 1 } else { ts.len() };
+            for t in &ts[..n] {
+                match t {
+                    TT::Comma => out.push(','), TT::Colon => out.push(':'),
+                    TT::Lit(Value::String(s), _) | TT::Expr(Value::String(s), _) | TT::Paren(Value::String(s), _) => out.push_str(&serde_json::to_string(s).unwrap()),
+                    t => if !tt_json(t, out) { return false; },
+                }
+            }
+            out.push(if is_arr { ']' } else { '}' });
+        }
+    }
+    true
+}
+
+/// JSON-shaped? (the harness-side twin of `Spec.JsonMacro.shape`, used only to decide whether a text is paired)
+fn shaped(t: &TT) -> bool {
+    fn is_val(t: &TT) -> bool { !matches!(t, TT::Comma | TT::Colon) && shaped(t) }
+    fn is_key(t: &TT) -> bool { matches!(t, TT::Lit(Value::String(_), _) | TT::Expr(Value::String(_), _) | TT::Paren(Value::String(_), _)) }
+    match t {
+        TT::Comma | TT::Colon => false,
+        TT::Arr(ts) => { let mut i = 0; while i < ts.len() { if !is_val(&ts[i]) { return false; } i += 1; if i < ts.len() { if !matches!(ts[i], TT::Comma) { return false; } i += 1; } } true }
+        TT::Obj(ts) => { let mut i = 0; while i < ts.len() {
+            if i + 2 >= ts.len() || !is_key(&ts[i]) || !matches!(ts[i + 1], TT::Colon) || !is_val(&ts[i + 2]) { return false; }
+            i += 3; if i < ts.len() { if !matches!(ts[i], TT::Comma) { return false; } i += 1; } } true }
+        _ => true,
+    }
+}
+
+struct Gen<'a> { r: &'a mut Rng, decls: Vec<String>, nvar: usize }
+
+impl<'a> Gen<'a> {
+    fn var(&mut self, ty: &str, init: &str) -> String {
+        let name = format!("x{}", self.nvar); self.nvar += 1;
+        self.decls.push(if ty.is_empty() { format!("let {} = {};", name, init) } else { format!("let {}: {} = {};", name, ty, init) });
+        name
+    }
+    fn tv<T: serde::Serialize>(x: T) -> Value { serde_json::to_value(&x).unwrap() }
+    /// an expression unit in value position
+    fn leaf(&mut self) -> TT {
+        let r = &mut *self.r;
+        match r.below(30) {
+            0 => TT::Lit(Self::tv(0), "0".into()),
+            1 => { let n = r.below(1000) as i32; TT::Lit(Self::tv(n), n.to_string()) }
+            2 => { let n = -(r.below(1000) as i32) - 1; TT::Lit(Self::tv(n), n.to_string()) }                 // two tokens `-` `n`
+            3 => { let n = u64::MAX - r.below(3) as u64; TT::Lit(Self::tv(n), format!("{}u64", n)) }
+            4 => { let n = i64::MIN + r.below(3) as i64; TT::Lit(Self::tv(n), format!("{}i64", n)) }
+            5 => { let f = *r.pick(&[0.5f64, 1.5, -0.0, 0.0, 1e300, 2.5e-7, 123456.789, 1e21, -3.25, 9007199254740993.0]); TT::Lit(Self::tv(f), format!("{:?}", f)) }
+            6 => { let s = gen_string(r); TT::Lit(Value::String(s.clone()), format!("{:?}", s)) }
+            7 => { let c = *r.pick(&['a', 'é', '"', '\\', '\n', '\u{10348}']); TT::Lit(Value::String(c.to_string()), format!("{:?}", c)) }
+            8 => { let n = r.below(200) as i32 - 100; let x = self.var("i32", &n.to_string()); TT::Expr(Self::tv(n), x) }
+            9 => { let n = r.next() >> r.below(64); let x = self.var("u64", &n.to_string()); TT::Expr(Self::tv(n), x) }
+            10 => { let n = (r.next() >> r.below(64)) as i64; let n = if r.chance(1, 2) { n.wrapping_neg() } else { n }; let x = self.var("i64", &n.to_string()); TT::Expr(Self::tv(n), x) }
+            11 => { let n = r.below(256) as u8; let x = self.var("u8", &n.to_string()); TT::Expr(Self::tv(n), x) }
+            12 => { let n = (r.below(256) as i32 - 128) as i8; let x = self.var("i8", &n.to_string()); TT::Expr(Self::tv(n), x) }
+            // floats are picked among those whose shortest decimal form the default parser reads back exactly (C08's exact class),
+            // so that "the equivalent JSON text" denotes the same double
+            13 => { let f = *r.pick(&[0.5f32, 1.5, -2.75, 1024.25, -0.0, 16777216.0]); let x = self.var("f32", &format!("{:?}", f)); TT::Expr(Self::tv(f), x) }
+            14 => { let f = *r.pick(&[0.1f64, -1.5, 1e-7, 1e21, 2.0, 6.02e23]); let x = self.var("f64", &format!("{:?}", f)); TT::Expr(Self::tv(f), x) }
+            15 => { let f = *r.pick(&["f64::NAN", "f64::INFINITY", "f32::NEG_INFINITY"]); let x = self.var("", f); TT::Expr(Value::Null, x) }   // non-finite floats serialise as null
+            16 => { let b = r.chance(1, 2); let x = self.var("bool", &b.to_string()); TT::Expr(Value::Bool(b), x) }
+            17 => { let s = gen_string(r); let x = self.var("&str", &format!("{:?}", s)); TT::Expr(Value::String(s), x) }
+            18 => { let s = gen_string(r); let x = self.var("String", &format!("String::from({:?})", s)); TT::Expr(Value::String(s), x) }
+            19 => { let o: Option<i32> = if r.chance(1, 2) { None } else { Some(r.below(50) as i32) }; let x = self.var("Option<i32>", &format!("{:?}", o)); TT::Expr(Self::tv(o), x) }
+            20 => { let v: Vec<u8> = (0..r.below(4)).map(|_| r.below(256) as u8).collect(); let x = self.var("Vec<u8>", &format!("vec!{:?}", v)); TT::Expr(Self::tv(&v), x) }
+            21 => { let n = r.below(100) as i32; let s = gen_string(r); let x = self.var("(i32, &str)", &format!("({}, {:?})", n, s)); TT::Expr(Self::tv((n, s.as_str())), x) }
+            22 => { let x = self.var("()", "()"); TT::Expr(Value::Null, x) }
+            23 => { let v = gen_value(r, 2); let x = self.var("Value", &value_code(&v)); TT::Expr(v, x) }
+            24 => { let a = r.below(100) as i32; let b = r.below(100) as i32; let x = self.var("i32", &a.to_string()); TT::Expr(Self::tv(a + b), format!("{} + {}", x, b)) }
+            25 => { let s = gen_string(r); let x = self.var("&str", &format!("{:?}", s)); TT::Expr(Self::tv(s.len()), format!("{}.len()", x)) }
+            26 => { let a = r.below(100) as i32; let x = self.var("i32", &a.to_string()); TT::Paren(Self::tv(a * 2), format!("({} * 2)", x)) }
+            27 => { let a = r.below(9) as u8; TT::Expr(Self::tv(vec![a, a + 1]), format!("vec![{}u8, {}]", a, a + 1)) }     // a macro call with a comma inside its group
+            28 => { let b = r.chance(1, 2); let x = self.var("bool", &b.to_string()); TT::Expr(Self::tv(if b { 1 } else { 2 }), format!("if {} {{ 1 }} else {{ 2 }}", x)) }
+            _ => { let n = r.below(50) as i64; let x = self.var("i64", &n.to_string()); TT::Expr(Self::tv(-n), format!("-{}", x)) }
+        }
+    }
+    /// an expression unit in key position (its value is a string)
+    fn key(&mut self, pool: &[String]) -> TT {
+        let s = if self.r.chance(3, 4) { self.r.pick(pool).clone() } else { gen_string(self.r) };
+        let v = Value::String(s.clone());
+        match self.r.below(9) {
+            0 | 1 | 2 | 3 => TT::Lit(v, format!("{:?}", s)),
+            4 => { let x = self.var("&str", &format!("{:?}", s)); TT::Expr(v, x) }
+            5 => { let x = self.var("String", &format!("String::from({:?})", s)); TT::Expr(v, x) }
+            6 => { let x = self.var("&str", &format!("{:?}", s)); TT::Paren(v, format!("({})", x)) }
+            7 => TT::Paren(v, format!("(format!(\"{{}}{{}}\", {:?}, {:?}))", &s[..s.char_indices().nth(1).map(|p| p.0).unwrap_or(s.len())], &s[s.char_indices().nth(1).map(|p| p.0).unwrap_or(s.len())..])),
+            _ => { let mut cs = s.chars(); match (cs.next(), cs.next()) { (Some(c), None) => TT::Lit(v, format!("{:?}", c)), _ => TT::Paren(v, format!("({:?}.to_string())", s)) } }
+        }
+    }
+    fn value(&mut self, depth: usize) -> TT { self.value_or_container(depth, false) }
+    fn value_or_container(&mut self, depth: usize, container: bool) -> TT {
+        let k = if depth == 0 { self.r.below(6) } else if container { 6 + self.r.below(6) } else { self.r.below(12) };
+        match k {
+            0 => TT::Null, 1 => TT::True, 2 => TT::False,
+            3 | 4 | 5 => self.leaf(),
+            6 | 7 | 8 => {
+                let n = if self.r.chance(1, 6) { 0 } else { 1 + self.r.below(5) };
+                let mut ts = vec![];
+                for i in 0..n { ts.push(self.value(depth - 1)); if i + 1 < n || self.r.chance(1, 3) { ts.push(TT::Comma); } }
+                TT::Arr(ts)
+            }
+            _ => {
+                let n = if self.r.chance(1, 6) { 0 } else { 1 + self.r.below(5) };
+                let pool: Vec<String> = (0..3).map(|_| self.r.pick(KEYS).to_string()).collect();      // small pool: duplicates are frequent
+                let mut ts = vec![];
+                for i in 0..n {
+                    ts.push(self.key(&pool)); ts.push(TT::Colon); ts.push(self.value(depth - 1));
+                    if i + 1 < n || self.r.chance(1, 3) { ts.push(TT::Comma); }
+                }
+                TT::Obj(ts)
+            }
+        }
+    }
+}
+
+struct Invocation { tt: TT, decls: Vec<String>, tag: String }
+
+fn tag_of(t: &TT) -> String {
+    fn walk(t: &TT, depth: usize, maxd: &mut usize, dup: &mut bool, trail: &mut bool, interp: &mut bool, paren: &mut bool) {
+        *maxd = (*maxd).max(depth);
+        match t {
+            TT::Expr(..) => *interp = true,
+            TT::Paren(..) => *paren = true,
+            TT::Arr(ts) | TT::Obj(ts) => {
+                if matches!(ts.last(), Some(TT::Comma)) { *trail = true; }
+                if let TT::Obj(_) = t {
+                    let mut seen = std::collections::HashSet::new();
+                    let mut i = 0;
+                    while i < ts.len() { if let TT::Lit(Value::String(s), _) | TT::Expr(Value::String(s), _) | TT::Paren(Value::String(s), _) = &ts[i] { if !seen.insert(s.clone()) { *dup = true; } } i += 4; }
+                }
+                for t in ts { walk(t, depth + 1, maxd, dup, trail, interp, paren); }
+            }
+            _ => {}
+        }
+    }
+    let (mut d, mut dup, mut trail, mut interp, mut paren) = (0, false, false, false, false);
+    walk(t, 0, &mut d, &mut dup, &mut trail, &mut interp, &mut paren);
+    format!("json:depth{}{}{}{}{}", d, if dup { ":dupkey" } else { "" }, if trail { ":trailing" } else { "" }, if interp { ":interp" } else { "" }, if paren { ":paren" } else { "" })
+}
+
+const SCRATCH_MAIN_PRELUDE: &str = r##"// GENERATED by `sjh` (harness/src/c18.rs) — json! invocations compiled against the tree under check
+#![allow(warnings)]
+#![recursion_limit = "1024"]
+mod common;
+use common::*;
+use serde_json::{json, Map, Value};
+fn cfg_tag() -> String {
+    let mut v: Vec<&str> = vec![];
+    if cfg!(feature = "po") { v.push("po"); }
+    if cfg!(feature = "fr") { v.push("fr"); }
+    if cfg!(feature = "ap") { v.push("ap"); }
+    if v.is_empty() { "d".into() } else { v.join("+") }
+}
+fn show_err(e: &serde_json::Error) -> String {
+    let full = e.to_string();
+    let msg = match full.rfind(" at line ") { Some(i) if e.line() != 0 => &full[..i], _ => &full[..] };
+    let cat = match e.classify() { serde_json::error::Category::Io => "io", serde_json::error::Category::Syntax => "syntax",
+                                    serde_json::error::Category::Data => "data", serde_json::error::Category::Eof => "eof" };
+    format!("E:{}:{}:{}:{}", hex(msg.as_bytes()), cat, e.line(), e.column())
+}
+fn emit(tt: &str, text: Option<&str>, built: Value) {
+    let cfg = cfg_tag();
+    println!("jsonm {} {} => S{}", cfg, tt, enc(&built));
+    if let Some(text) = text {
+        let o = match serde_json::from_str::<Value>(text) { Ok(v) => format!("V{}", enc(&v)), Err(e) => show_err(&e) };
+        println!("jsonp {} {} {} => {}", cfg, tt, hexf(text.as_bytes()), o);
+    }
+}
+"##;
+
+fn work_dir() -> std::path::PathBuf {
+    if let Ok(w) = std::env::var("SJH_WORK") { return w.into(); }
+    // <root>/harness/target-<cfg>[-<hash>]/release/sjh  ->  <root>/work
+    let exe = std::env::current_exe().expect("current_exe");
+    exe.ancestors().nth(4).expect("harness binary outside the framework tree").join("work")
+}
+
+/// write the scratch crate, `cargo run` it, return its stdout lines (or the first compiler error)
+fn build_and_run(invs: &[Invocation], key: &str) -> Result<Vec<String>, String> {
+    let repo = std::env::var("VERIF_REPO").unwrap_or_else(|_| "/repo".into());
+    let cfg = crate::obs::cfg_tag().replace('+', "");
+    let mut h: u64 = 0xcbf29ce484222325; for b in repo.bytes() { h = (h ^ b as u64).wrapping_mul(0x100000001b3); }
+    let tree = if std::fs::canonicalize(&repo).map(|p| p == std::path::Path::new("/repo")).unwrap_or(false) { String::new() } else { format!("-{:08x}", h as u32) };
+    let work = work_dir();
+    let dir = work.join(format!("jsonm-{}{}-{}", cfg, tree, key));
+    let target = work.join(format!("jsonm-target-{}{}", cfg, tree));
+    std::fs::create_dir_all(dir.join("src")).map_err(|e| format!("mkdir: {}", e))?;
+    let feats: Vec<&str> = ["po", "fr", "ap"].iter().copied().filter(|f| crate::obs::cfg_tag().split('+').any(|x| x == *f)).collect();
+    // the package (hence the binary in the shared target dir) is named after the key: `cargo run` must never pick up another key's binary
+    let manifest = format!("[package]\nname = \"jsonm-{}\"\nversion = \"0.1.0\"\nedition = \"2021\"\n\n[workspace]\n\n[dependencies]\nserde_json = {{ path = {:?} }}\nserde = \"1.0.194\"\n\n\
+        [features]\nfr = [\"serde_json/float_roundtrip\"]\npo = [\"serde_json/preserve_order\"]\nap = [\"serde_json/arbitrary_precision\"]\nrv = []\nud = []\n\n\
+        [profile.release]\nopt-level = 0\ndebug = false\nincremental = false\ncodegen-units = 16\noverflow-checks = true\n", key, repo);
+    let mut src = String::from(SCRATCH_MAIN_PRELUDE);
+    let per_fn = 25;
+    for (fi, chunk) in invs.chunks(per_fn).enumerate() {
+        src.push_str(&format!("#[inline(never)] fn g{}() {{\n", fi));
+        for inv in chunk {
+            let mut tte = String::new(); enc_tt(&inv.tt, &mut tte);
+            let mut code = String::new(); tt_source(&inv.tt, &mut code);
+            let mut text = String::new();
+            let paired = shaped(&inv.tt) && tt_json(&inv.tt, &mut text);
+            src.push_str("    { ");
+            for d in &inv.decls { src.push_str(d); src.push(' '); }
+            src.push_str(&format!("emit({:?}, {}, json!({})); }}\n", tte, if paired { format!("Some({:?})", text) } else { "None".into() }, code));
+        }
+        src.push_str("}\n");
+    }
+    src.push_str("fn main() {\n");
+    for fi in 0..(invs.len() + per_fn - 1) / per_fn { src.push_str(&format!("    g{}();\n", fi)); }
+    src.push_str("}\n");
+    let write = |p: std::path::PathBuf, s: &str| { if std::fs::read_to_string(&p).ok().as_deref() != Some(s) { std::fs::write(&p, s).map_err(|e| format!("write {:?}: {}", p, e)) } else { Ok(()) } };
+    write(dir.join("Cargo.toml"), &manifest)?;
+    if !dir.join("Cargo.lock").exists() { write(dir.join("Cargo.lock"), include_str!("../Cargo.lock"))?; }
+    write(dir.join("src").join("common.rs"), include_str!("common.rs"))?;
+    write(dir.join("src").join("main.rs"), &src)?;
+    let mut cmd = std::process::Command::new("cargo");
+    cmd.args(["run", "--release", "--offline", "--quiet"]).current_dir(&dir)
+        .env("CARGO_TARGET_DIR", &target).env("RUSTFLAGS", "-Awarnings").env("CARGO_NET_OFFLINE", "true");
+    if !feats.is_empty() { cmd.arg("--features").arg(feats.join(",")); }
+    let out = cmd.output().map_err(|e| format!("cargo: {}", e))?;
+    if !out.status.success() {
+        let err = String::from_utf8_lossy(&out.stderr);
+        let first = err.lines().find(|l| l.starts_with("error")).unwrap_or("error: (no message)").to_string();
+        let _ = std::fs::write(dir.join("build-error.log"), err.as_bytes());
+        return Err(first);
+    }
+    Ok(String::from_utf8_lossy(&out.stdout).lines().map(|l| l.to_string()).collect())
+}
+
+/// feed the lines the generated program printed into the sink
+fn forward(sink: &mut Sink, invs: &[Invocation], key: &str) {
+    let cfg = crate::obs::cfg_tag();
+    let count = invs.len().to_string();
+    match build_and_run(invs, key) {
+        Err(e) => sink.case("jsonmbuild", &[&cfg, &count], &format!("E{}", hexf(e.as_bytes())), "jsonmbuild:failed", true),
+        Ok(lines) => {
+            // the program must report every invocation exactly once (guards against a stale or truncated run)
+            let got = lines.iter().filter(|l| l.starts_with("jsonm ")).count();
+            if got != invs.len() {
+                let e = format!("error: the generated program printed {} json! results for {} invocations", got, invs.len());
+                sink.case("jsonmbuild", &[&cfg, &count], &format!("E{}", hexf(e.as_bytes())), "jsonmbuild:count", true);
+                return;
+            }
+            sink.case("jsonmbuild", &[&cfg, &count], "OK", "jsonmbuild:ok", true);
+            let mut k = 0usize;     // index of the invocation the next `jsonm` line belongs to
+            for line in lines {
+                let Some((lhs, obs)) = line.split_once(" => ") else { continue };
+                let toks: Vec<&str> = lhs.split(' ').collect();
+                let tag = invs.get(if toks[0] == "jsonm" { k } else { k.saturating_sub(1) }).map(|i| i.tag.clone()).unwrap_or_else(|| "json:?".into());
+                if toks[0] == "jsonm" { k += 1; }
+                let nt = !tag.starts_with("json:depth0");
+                sink.case(toks[0], &toks[1..], obs, &format!("{}:{}", toks[0], &tag[5..]), nt);
+            }
+        }
+    }
+}
+
+fn fixed_invocations() -> Vec<Invocation> {
+    let s = |x: &str| TT::Lit(Value::String(x.into()), format!("{:?}", x));
+    let n = |x: i32| TT::Lit(Value::from(x), x.to_string());
+    let mk = |tt: TT| Invocation { tag: tag_of(&tt), tt, decls: vec![] };
+    vec![
+        mk(TT::Null), mk(TT::True), mk(TT::False), mk(n(1)), mk(n(-1)), mk(s("x")), mk(TT::Arr(vec![])), mk(TT::Obj(vec![])),
+        mk(TT::Arr(vec![TT::Null])), mk(TT::Arr(vec![TT::Null, TT::Comma])), mk(TT::Arr(vec![n(1), TT::Comma, n(2)])), mk(TT::Arr(vec![n(1), TT::Comma, n(2), TT::Comma])),
+        mk(TT::Arr(vec![TT::Arr(vec![]), TT::Comma, TT::Obj(vec![]), TT::Comma, TT::Arr(vec![TT::Obj(vec![])])])),
+        mk(TT::Obj(vec![s("a"), TT::Colon, n(1)])), mk(TT::Obj(vec![s("a"), TT::Colon, n(1), TT::Comma])),
+        // duplicate keys: the last one wins, at the first one's position under preserve_order
+        mk(TT::Obj(vec![s("b"), TT::Colon, n(1), TT::Comma, s("a"), TT::Colon, n(2), TT::Comma, s("b"), TT::Colon, n(3)])),
+        mk(TT::Obj(vec![s("k"), TT::Colon, TT::Null, TT::Comma, s("k"), TT::Colon, TT::True, TT::Comma, s("k"), TT::Colon, TT::Arr(vec![]), TT::Comma])),
+        mk(TT::Obj(vec![TT::Paren(Value::String("p".into()), "(\"p\")".into()), TT::Colon, TT::Obj(vec![s(""), TT::Colon, TT::False])])),
+        // outside the JSON shape, still accepted by the rules: a leading comma in an array (rule A10 on the empty accumulator)
+        mk(TT::Arr(vec![TT::Comma, n(1)])), mk(TT::Arr(vec![TT::Comma, TT::Null, TT::Comma])),
+    ]
+}
+
+fn run_jsonm(sink: &mut Sink, thorough: bool, seed: u64, r: &mut Rng) {
+    let mut invs = fixed_invocations();
+    let n = if thorough { 20000 } else { 2000 };
+    for _ in 0..n {
+        let mut g = Gen { r: &mut *r, decls: vec![], nvar: 0 };
+        let depth = 1 + g.r.below(3);
+        let top_container = !g.r.chance(1, 10);
+        let tt = g.value_or_container(depth, top_container);
+        let decls = std::mem::take(&mut g.decls);
+        invs.push(Invocation { tag: tag_of(&tt), tt, decls });
+    }
+    forward(sink, &invs, &format!("{}-{}", if thorough { "t" } else { "q" }, seed));
+}
+
+/// replay: rebuild a one-invocation program from the token tree on the wire
+fn replay_jsonm(sink: &mut Sink, toks: &[&str]) {
+    if toks[0] == "jsonmbuild" || toks.len() < 3 { return; }
+    let b = toks[2].as_bytes(); let mut i = 0;
+    let Some(tt) = dec_tt(b, &mut i) else { return };
+    let inv = Invocation { tag: tag_of(&tt), tt, decls: vec![] };
+    let mut hsh = std::collections::hash_map::DefaultHasher::new();
+    std::hash::Hash::hash(toks[2], &mut hsh);
+    let key = format!("r-{:016x}", std::hash::Hasher::finish(&hsh));
+    match build_and_run(std::slice::from_ref(&inv), &key) {
+        Err(e) => sink.case("jsonmbuild", &[&crate::obs::cfg_tag(), "1"], &format!("E{}", hexf(e.as_bytes())), "replay", true),
+        Ok(lines) => for line in lines {
+            let Some((lhs, obs)) = line.split_once(" => ") else { continue };
+            let t: Vec<&str> = lhs.split(' ').collect();
+            if t[0] == toks[0] { sink.case(t[0], &t[1..], obs, "replay", true); }
         }
     }
 }
